@@ -16,6 +16,11 @@ terms on every run.  Two kinds of obligations:
      it is not translatable the epilogue is executed concretely on all 65 536 register values
      (crc16) and the real function is probed on solver-chosen inputs with zero bytes -- an
      untranslatable return never passes silently (violation, or INCONCLUSIVE).
+     Shape tolerance: the loop state may be the expected variables (crc / crctop+crcbot) or ONE
+     full-width register of any name; the result assembly is translated with IEEE semantics for
+     `/`, int(float) and `%` (FP(11,53)), so a float division that rounds a 64-bit register to 53
+     bits is refuted.  A counterexample register value is turned into an input by running the CRC
+     backwards (8 forged bytes, GF(2) elimination on the reference) and replayed on the real function.
 (ii) whole function ("<fn>/whole/N", N from 0): the function unrolled on N symbolic bytes
      equals the reference in value and layout for all 256^N inputs: crc16 N <= 4 (quick) / N <= 8 (thorough); crc64 N <= 1 /
      N <= 2 only -- the XOR-heavy 64-bit equivalence is not decided by z3 beyond that (measured:
@@ -124,7 +129,65 @@ def pack_model(I, args, kw):
 
 
 def interp(sess, sp):
-    return sess.interp(num="bv", bvw=sp["bvw"], intrinsics={struct.pack: pack_model})
+    # int / int, int(float) and % by a constant are translated with IEEE double semantics (FP(11,53))
+    return sess.interp(num="bv", bvw=sp["bvw"], intrinsics={struct.pack: pack_model}, int_truediv_fp=True)
+
+
+def spec_for(which):
+    """SPEC entry adapted to the shape of the code: the loop state (names assigned both before and inside
+    the per-byte loop) may be the expected variables or ONE full-width register of any name."""
+    sp = dict(SPEC[which])
+    try:
+        _param, prelude, loop, _epilogue = dissect(getattr(checking, which))
+    except A.Unsupported:
+        return sp
+
+    def stored(stmts):
+        return {n.id for st in stmts for n in ast.walk(st) if isinstance(n, ast.Name) and isinstance(n.ctx, ast.Store)}
+    state = sorted((stored(loop.body) & stored(prelude)) - {loop.target.id})
+    if state != sorted(v for v, _ in sp["state"]) and len(state) == 1:
+        sp["state"] = [(state[0], sp["width"])]
+        sp["bvw"] = max(sp["bvw"], sp["width"] + 8)
+    return sp
+
+
+def register_of(sp, data):
+    """reference register (before the final xor) after the bytes `data`"""
+    return table_crc(data, sp["width"], sp["poly"], sp["init"], 0)
+
+
+def forge(sp, target):
+    """width/8 bytes after which the reference register equals `target`: the register is an affine function
+    of the message bits over GF(2) and a bijection for width/8 bytes -> Gaussian elimination"""
+    w = sp["width"]
+    n = w // 8
+    f = lambda x: register_of(sp, x.to_bytes(n, "big"))
+    c = f(0)
+    cols = [f(1 << i) ^ c for i in range(w)]
+    rows = []
+    for j in range(w):
+        mask = 0
+        for i in range(w):
+            mask |= ((cols[i] >> j) & 1) << i
+        rows.append([mask, ((target ^ c) >> j) & 1])
+    piv = {}
+    r = 0
+    for i in range(w):
+        k = next((q for q in range(r, w) if (rows[q][0] >> i) & 1), None)
+        if k is None:
+            continue
+        rows[r], rows[k] = rows[k], rows[r]
+        for q in range(w):
+            if q != r and (rows[q][0] >> i) & 1:
+                rows[q][0] ^= rows[r][0]
+                rows[q][1] ^= rows[r][1]
+        piv[i] = r
+        r += 1
+    x = 0
+    for i, q in piv.items():
+        x |= rows[q][1] << i
+    data = x.to_bytes(n, "big")
+    return data if register_of(sp, data) == target else None
 
 
 def normalize(res):
@@ -230,7 +293,7 @@ def probe_real(sess, which, n):
 
 def whole_query(sess, which, n, what):
     """prove result == reference (value AND layout) for all n-byte inputs"""
-    sp = SPEC[which]
+    sp = spec_for(which)
     key = KEY % (which, sp["name"])
     if n == 0:
         # the domain has one element: decided by running the real function (the translation below is
@@ -295,16 +358,32 @@ def dissect(fn):
 
 def ob_step(sess, params):
     which = params["fn"]
-    sp = SPEC[which]
+    sp = spec_for(which)
     fn = getattr(checking, which)
     g = fn.__globals__
     W = sp["bvw"]
     param, prelude, loop, epilogue = dissect(fn)
     key = KEY % (which, sp["name"])
+    sym = {}
 
-    def concretize(_m):
-        # a step counterexample speaks about an arbitrary state; turn it into a real input: search a
-        # whole input of 0, 1, 2, 3 and (register bytes + 1) bytes on which the function differs
+    def concretize(m):
+        # a step counterexample speaks about an arbitrary register value; turn it into a real input.
+        # 1. run the CRC backwards: forge width/8 bytes after which the reference register equals the model's
+        #    register value (the CRC is a bijection there), optionally followed by the model's byte
+        if m is not None and sym:
+            reg = 0
+            for v, k in sp["state"]:
+                reg = (reg << k) | (A.model_value(m, sym["svars"][v]) & ((1 << k) - 1))
+            data = forge(sp, reg)
+            if data is not None:
+                for cand in (data, data + bytes([A.model_value(m, sym["byte"]) & 0xff])):
+                    try:
+                        bad = real_result(which, cand) != expected_result(which, cand)
+                    except Exception:
+                        bad = True
+                    if bad:
+                        return ({"fn": which, "data": cand.hex()}, describe(which, cand))
+        # 2. search a whole input of 0, 1, 2, 3 and (register bytes + 1) bytes on which the function differs
         sess.solver.set("timeout", 30000)
         try:
             for n in sorted({0, 1, 2, 3, sp["width"] // 8 + 1}):
@@ -350,6 +429,7 @@ def ob_step(sess, params):
     # (b) loop body from an arbitrary in-range state and byte
     svars = {v: z3.BitVec("s_" + v, k) for v, k in sp["state"]}
     byte = z3.BitVec("byte", 8)
+    sym.update(svars=svars, byte=byte)
     I1 = interp(sess, sp)
     env = dict(env0)
     for v, k in sp["state"]:
@@ -457,7 +537,7 @@ def ob_check_value(sess, params):
     """catalogue check value of '123456789': pins the z3 reference, the table reference and the real
     function to the published parameters (concrete; the 9-byte translation is validated on the way)"""
     which = params["fn"]
-    sp = SPEC[which]
+    sp = spec_for(which)
     data = b"123456789"
     bs = [z3.BitVec("b%d" % i, 8) for i in range(9)]
     refv = z3.simplify(z3.substitute(ref_whole(sp, bs), *[(b, z3.BitVecVal(c, 8)) for b, c in zip(bs, data)]))
@@ -498,12 +578,15 @@ def obligations(tier):
     x = dict(xcheck=(tier == "thorough"), xcheck_max=3)
     obs = []
     for which in ("crc16", "crc64"):
-        obs.append(Ob("%s/step" % which, A.run_obligation(ob_step, "QF_BV", 120000), params=dict(x, fn=which), kind="e2", replay=replay,
+        # crc64: a tactic solver (simplify, fpa2bv, qfbv) that also decides queries with FP terms
+        # (true division / int(float) in the result assembly); crc16: incremental QF_BV
+        logic = "QF_BV" if which == "crc16" else "tactic:simplify>fpa2bv>qfbv"
+        obs.append(Ob("%s/step" % which, A.run_obligation(ob_step, logic, 120000), params=dict(x, fn=which), kind="e2", replay=replay,
                       budget=120, bounds=dict(state="arbitrary in-range register", byte="arbitrary", length="any (inductive)")))
-        obs.append(Ob("%s/check-value" % which, A.run_obligation(ob_check_value, "QF_BV"), params=dict(fn=which), kind="e2",
+        obs.append(Ob("%s/check-value" % which, A.run_obligation(ob_check_value, logic), params=dict(fn=which), kind="e2",
                       replay=replay, budget=60, bounds=dict(input="b'123456789' (concrete catalogue vector)")))
         for n in range(nmax if which == "crc16" else (1 if tier == "quick" else 2), -1, -1):
-            obs.append(Ob("%s/whole/%d" % (which, n), A.run_obligation(ob_whole, "QF_BV", 120000), params=dict(x, fn=which, n=n), kind="e2",
+            obs.append(Ob("%s/whole/%d" % (which, n), A.run_obligation(ob_whole, logic, 120000), params=dict(x, fn=which, n=n), kind="e2",
                           replay=replay, budget=600,
                           bounds=dict(bytes=n, values="all 256^%d byte strings" % n)))
     return obs
